@@ -28,6 +28,7 @@ type C03Case struct {
 func genC03(t *rapid.T) C03Case {
 	cfg := kit.DefaultTreeGen()
 	cfg.CorruptPct = 4
+	cfg.ExtraCorruptions = []string{"timestamp-future"}
 	cfg.BadIntentPct = 2
 	cfg.ForkPct = 28
 	cfg.Kinds = []string{"pay", "sf", "form", "fcop", "fcop", "attest", "arb"}
